@@ -49,6 +49,39 @@ pub enum V {
     Fail,
     /// a value of an error enum whose `Serialize` comes from zlink's `ReplyError` derive
     Derived(DErr),
+    /// a type whose `Serialize` asks the serializer whether the format is human readable and writes the first
+    /// value if so, the second otherwise (serde_json says yes; uuid, time, chrono, ipnet ... types do this)
+    ByReadability(Box<V>, Box<V>),
+    /// std's network address types (they ask the same question: text form or tuple / enum form)
+    Net(NetV),
+}
+
+#[derive(Debug, Clone, PartialEq)]
+pub enum NetV {
+    Ip(std::net::IpAddr),
+    V4(std::net::Ipv4Addr),
+    V6(std::net::Ipv6Addr),
+    Sock(std::net::SocketAddr),
+}
+
+pub fn rand_net(rng: &mut Rng) -> NetV {
+    use std::net::*;
+    let v4 = Ipv4Addr::from(match rng.below(3) { 0 => 0, 1 => u32::MAX, _ => rng.next_u64() as u32 });
+    let v6 = Ipv6Addr::from(match rng.below(4) {
+        0 => 0u128,
+        1 => 1,
+        2 => (rng.next_u64() as u128) << 64 | rng.next_u64() as u128,
+        _ => (rng.next_u64() as u128) << (rng.below(64) as u32),
+    });
+    let port = *rng.pick(&[0u16, 1, 80, 8080, 65535]);
+    match rng.below(6) {
+        0 => NetV::Ip(IpAddr::V4(v4)),
+        1 => NetV::Ip(IpAddr::V6(v6)),
+        2 => NetV::V4(v4),
+        3 => NetV::V6(v6),
+        4 => NetV::Sock(SocketAddr::V4(SocketAddrV4::new(v4, port))),
+        _ => NetV::Sock(SocketAddr::V6(SocketAddrV6::new(v6, port, 0, 0))),
+    }
 }
 
 /// Error enum with optional fields in every combination (all optional / mixed / none), serialized by the
@@ -78,6 +111,17 @@ impl Serialize for V {
     fn serialize<S: Serializer>(&self, s: S) -> Result<S::Ok, S::Error> {
         match self {
             V::Derived(e) => e.serialize(s),
+            V::ByReadability(a, b) => {
+                if s.is_human_readable() {
+                    a.serialize(s)
+                } else {
+                    b.serialize(s)
+                }
+            }
+            V::Net(NetV::Ip(a)) => a.serialize(s),
+            V::Net(NetV::V4(a)) => a.serialize(s),
+            V::Net(NetV::V6(a)) => a.serialize(s),
+            V::Net(NetV::Sock(a)) => a.serialize(s),
             V::Bool(v) => s.serialize_bool(*v),
             V::I8(v) => s.serialize_i8(*v),
             V::I16(v) => s.serialize_i16(*v),
@@ -202,6 +246,9 @@ pub fn key_must_be_accepted(k: &V) -> bool {
         V::I8(_) | V::I16(_) | V::I32(_) | V::I64(_) | V::I128(_) => true,
         V::U8(_) | V::U16(_) | V::U32(_) | V::U64(_) | V::U128(_) => true,
         V::NewtypeStruct(_, inner) => key_must_be_accepted(inner),
+        // the reference format is human readable: the first value / the text form is what must go out
+        V::ByReadability(a, _) => key_must_be_accepted(a),
+        V::Net(_) => true,
         _ => false,
     }
 }
@@ -209,7 +256,7 @@ pub fn key_must_be_accepted(k: &V) -> bool {
 /// Does the value contain, anywhere, a map key that zlink is allowed to refuse?
 pub fn has_refusable_key(v: &V) -> bool {
     match v {
-        V::Some(x) | V::NewtypeStruct(_, x) | V::NewtypeVariant(_, _, _, x) => has_refusable_key(x),
+        V::Some(x) | V::NewtypeStruct(_, x) | V::NewtypeVariant(_, _, _, x) | V::ByReadability(x, _) => has_refusable_key(x),
         V::Seq(xs, _) | V::Tuple(xs) | V::TupleStruct(_, xs) | V::TupleVariant(_, _, _, xs) => {
             xs.iter().any(has_refusable_key)
         }
@@ -224,7 +271,7 @@ pub fn has_refusable_key(v: &V) -> bool {
 pub fn has_fail(v: &V) -> bool {
     match v {
         V::Fail => true,
-        V::Some(x) | V::NewtypeStruct(_, x) | V::NewtypeVariant(_, _, _, x) => has_fail(x),
+        V::Some(x) | V::NewtypeStruct(_, x) | V::NewtypeVariant(_, _, _, x) | V::ByReadability(x, _) => has_fail(x),
         V::Seq(xs, _) | V::Tuple(xs) | V::TupleStruct(_, xs) | V::TupleVariant(_, _, _, xs) => {
             xs.iter().any(has_fail)
         }
@@ -293,7 +340,8 @@ pub fn rand_f64(rng: &mut Rng) -> f64 {
 }
 
 pub fn rand_scalar(rng: &mut Rng) -> V {
-    match rng.below(22) {
+    match rng.below(23) {
+        22 => V::Net(rand_net(rng)),
         0 => V::Bool(rng.chance(1, 2)),
         1 => V::I8(rng.next_u64() as i8),
         2 => V::I16(rng.next_u64() as i16),
@@ -328,7 +376,9 @@ pub fn rand_scalar(rng: &mut Rng) -> V {
 
 /// A key of a kind that must be accepted.
 pub fn rand_good_key(rng: &mut Rng) -> V {
-    let k = match rng.below(14) {
+    let k = match rng.below(16) {
+        14 => V::Net(rand_net(rng)),
+        15 => V::ByReadability(Box::new(V::Str(rand_string(rng, 6))), Box::new(rng.pick(&[V::Bytes(vec![1, 2]), V::U64(7), V::Tuple(vec![V::U8(1)])]).clone())),
         0 => V::I8(rng.next_u64() as i8),
         1 => V::I16(rng.next_u64() as i16),
         2 => V::I32(rand_i128(rng) as i32),
@@ -386,7 +436,8 @@ pub fn rand_tree(rng: &mut Rng, depth: usize, o: &GenOpts) -> V {
     let kids = |rng: &mut Rng, max: usize| -> Vec<V> {
         (0..rng.below(max + 1)).map(|_| rand_tree(rng, depth - 1, o)).collect()
     };
-    match rng.below(11) {
+    match rng.below(12) {
+        11 => V::ByReadability(Box::new(rand_tree(rng, depth - 1, o)), Box::new(rand_tree(rng, depth - 1, &GenOpts { bad_key_one_in: 0, fail_one_in: 0 }))),
         0 => V::Some(Box::new(rand_tree(rng, depth - 1, o))),
         1 => V::NewtypeStruct(name(rng), Box::new(rand_tree(rng, depth - 1, o))),
         2 => V::NewtypeVariant(name(rng), rng.below(4) as u32, name(rng), Box::new(rand_tree(rng, depth - 1, o))),
